@@ -63,6 +63,9 @@ func (p *{{$TypeName}}) InitDefault() {
 
 {{if eq .Category "union"}}
 func (p *{{$TypeName}}) CountSetFields{{$TypeName}}() int {
+	if p == nil {
+		return 0
+	}
 	count := 0
 	{{- range .Fields}}
 	{{- if SupportIsSet .Field}}
